@@ -198,11 +198,20 @@ Section MINMAX.
   Definition tile (c : list Z) (s : gts cell) : gts (list cell) := map (fun p => (fst p, map (fun _ => snd p) c)) s.
   Definition rows2 (r1 r2 : gts (list cell)) (n : list cell) : gts (list cell) :=
     map (fun p => (fst p, map (fun xy => opc (fst xy) (snd xy)) (combine (snd p) (at_ n r2 (fst p))))) r1.
+  (* _align_columns: a one-column frame next to a Series is squeezed to its column (as_series): the result is a Series *)
+  Definition squeeze1 (o : obj) : option (gts cell) :=
+    match o with OF [c0] r => Some (column [c0] r c0) | _ => None end.
   Definition mm2 (a b : obj) : obj :=
     match a, b with
     | OF c1 r1, OF c2 r2 => OF c1 (rows2 r1 r2 (nanrow c1))
-    | OF c1 r1, OS s2 => OF c1 (rows2 r1 (tile c1 s2) (nanrow c1))
-    | OS s1, OF c2 r2 => OF c2 (rows2 (tile c2 s1) r2 (nanrow c2))
+    | OF c1 r1, OS s2 => match squeeze1 a with
+                         | Some s1 => op2 opc (OS s1) (OS s2)
+                         | None => OF c1 (rows2 r1 (tile c1 s2) (nanrow c1))
+                         end
+    | OS s1, OF c2 r2 => match squeeze1 b with
+                         | Some s2 => op2 opc (OS s1) (OS s2)
+                         | None => OF c2 (rows2 (tile c2 s1) r2 (nanrow c2))
+                         end
     | OF c1 r1, ON c => OF c1 (map (fun p => (fst p, map (fun x => opc x c) (snd p))) r1)
     | ON c, OF c2 r2 => OF c2 (map (fun p => (fst p, map (fun x => opc c x) (snd p))) r2)
     | _, _ => op2 opc a b
@@ -219,12 +228,18 @@ End MINMAX.
 Definition sum_impl (cs : list cell) : Z := fold_left (fun acc c => acc + match c with Some v => v | None => 0 end) cs 0.
 Definition n_impl (cs : list cell) : Z := fold_left (fun acc c => acc + if is_nan c then 0 else 1) cs 0.
 Inductive agg := ASum | AMean | ACount.
+(* +-inf operands (cells Some (+-INFZ)) are DATA: they count, and they decide the sum / mean by the IEEE rules
+   (inf + finite = inf, inf + -inf = NaN, inf / n = inf) *)
+Definition has_pinf (cs : list cell) : bool := existsb (fun c => match c with Some v => v =? INFZ | None => false end) cs.
+Definition has_ninf (cs : list cell) : bool := existsb (fun c => match c with Some v => v =? - INFZ | None => false end) cs.
 Definition agg_cell (g : agg) (cs : list cell) : cell :=
   let n := n_impl cs in
   match g with
   | ACount => Some n
-  | ASum => if n =? 0 then None else Some (sum_impl cs)
-  | AMean => if n =? 0 then None else Some (sum_impl cs / n)
+  | _ => if n =? 0 then None
+         else if has_pinf cs then (if has_ninf cs then None else Some INFZ)
+         else if has_ninf cs then Some (- INFZ)
+         else match g with ASum => Some (sum_impl cs) | _ => Some (sum_impl cs / n) end
   end.
 Definition cell_of (o : obj) (t : Z) (x : Z) : cell :=
   match o with
